@@ -180,6 +180,15 @@ func init() {
 		r.block(fr, "settle", func() bool { return len(r.runnable(g)) == 0 })
 		return nil
 	}
+	harnessAPI["vLiveGoroutines"] = func(r *Run, fr *frame, args []Value) Value {
+		n := 0
+		for _, g := range r.gs {
+			if !g.done && g != fr.g {
+				n++
+			}
+		}
+		return r.tt.Const(64, uint64(n))
+	}
 	harnessAPI["vTimersQuiet"] = func(r *Run, fr *frame, args []Value) Value {
 		r.timersQuiet = true
 		r.noteAssumption("one-shot timers (time.NewTimer / time.After: time-outs) never fire in this harness; tickers do")
